@@ -51,6 +51,29 @@ Lemma self_teletext e : sim eq (new_descriptor_teletext e) (new_descriptor_telet
 Lemma self_unknown t l : sim eq (new_descriptor_unknown t l) (new_descriptor_unknown t l). Proof. body_self. Qed.
 Lemma self_vbi_data e : sim eq (new_descriptor_vbi_data e) (new_descriptor_vbi_data e). Proof. body_self. Qed.
 
+(* ---------------- copies ---------------- *)
+
+(* a slice that the model COPIES (next_bytes: it is retained in the result) must be read with NextBytes in the source as
+   well; the two primitives have the same meaning in the iterator monad (aliasing is C16's subject), so the equality
+   below would hold either way -- the proofs insist on it to notice a copy that became a NextBytesNoCopy *)
+Ltac copy_discipline :=
+  lazymatch goal with
+  | |- sim _ (ibind (next_bytes _) _) (ibind (next_bytes_nocopy _) _) =>
+      fail "the source reads with NextBytesNoCopy a slice that the model copies because the result retains it"
+  | |- sim _ (ibind (next_bytes _) _) (ibind (next_bytes _) _) => idtac
+  end.
+(* the same for the trailing bytes `if i.Offset() < offsetEnd { x, err = i.NextBytes(offsetEnd - i.Offset()) }` and for a
+   copy inside a conditional block *)
+Ltac copy_discipline_in_block :=
+  lazymatch goal with
+  | |- sim _ _ ?g =>
+      lazymatch g with
+      | context [next_bytes_nocopy] =>
+          fail "the source reads with NextBytesNoCopy a slice that the model copies because the result retains it"
+      | _ => idtac
+      end
+  end.
+
 (* ---------------- the loop ---------------- *)
 
 (* parseDescriptors of Gen/PsiGen.v with its Section Variables instantiated by the model's body parsers *)
@@ -87,7 +110,7 @@ Proof.
     eapply sim_bind; [apply sim_ioffset|]. intros o1 ? <-. cbv beta.
     eapply (sim_bind eq); [|intros d ? <-; eapply sim_bind; [apply sim_iseek|]; intros _ _ _; apply sim_ret; reflexivity].
     unfold parse_descriptor_body, is_user_defined. cbv zeta. replace (b >=? 128) with (128 <=? b) by (symmetry; apply Z.geb_leb).
-    apply sim_if; [eapply sim_bind; [apply sim_next_bytes|]; intros v ? (<- & _ & _); apply sim_ret; reflexivity|].
+    apply sim_if; [copy_discipline; eapply sim_bind; [apply sim_next_bytes|]; intros v ? (<- & _ & _); apply sim_ret; reflexivity|].
     apply sim_if; [body_case self_ac3|].
     apply sim_if; [body_case self_avc_video|].
     apply sim_if; [body_case self_component|].
@@ -187,7 +210,7 @@ Qed.
 (* ---------------- descriptor bodies ---------------- *)
 
 Ltac step_bytes bs Hok Hlen := eapply sim_bind; [apply sim_next_bytes_nocopy|]; intros bs ? (<- & Hok & Hlen); cbv beta.
-Ltac step_bytesc bs Hok Hlen := eapply sim_bind; [apply sim_next_bytes|]; intros bs ? (<- & Hok & Hlen); cbv beta.
+Ltac step_bytesc bs Hok Hlen := copy_discipline; eapply sim_bind; [apply sim_next_bytes|]; intros bs ? (<- & Hok & Hlen); cbv beta.
 Ltac step_byte b Hb := eapply sim_bind; [apply sim_next_byte|]; intros b ? (<- & Hb); cbv beta.
 Ltac open_bytes bs Hok Hlen := explode_bytes bs Hlen Hok; nth_lit; let H := fresh "Hok'" in pose proof Hok as H; bytes_inv H.
 
@@ -251,7 +274,7 @@ Proof.
   step_bytes bs Hok Hlen. open_bytes bs Hok Hlen.
   assert (E : bitsf [b; b0; b1; b2] 0 32 =
      Z.lor (Z.lor (Z.lor (Z.shiftl b 24 mod 4294967296) (Z.shiftl b0 16 mod 4294967296)) (Z.shiftl b1 8 mod 4294967296)) b2) by bridge.
-  rewrite E. apply rest_bytes_sim. intros; reflexivity.
+  rewrite E. copy_discipline_in_block. apply rest_bytes_sim. intros; reflexivity.
 Qed.
 
 Lemma new_descriptor_network_name_sim e : sim eq (new_descriptor_network_name e) (newDescriptorNetworkName e).
@@ -267,7 +290,7 @@ Proof.
   step_byte b0 H0. step_byte ct H1. step_byte cg H2. step_bytesc lang Hok Hlen. psigen_cbn.
   assert (E1 : bitsf [b0] 4 4 = Z.land b0 15) by bridge.
   assert (E2 : bitsf [b0] 0 4 = Z.shiftr b0 4) by bridge.
-  rewrite E1, E2. apply rest_bytes_sim. intros; reflexivity.
+  rewrite E1, E2. copy_discipline_in_block. apply rest_bytes_sim. intros; reflexivity.
 Qed.
 
 Lemma new_descriptor_service_sim : sim eq new_descriptor_service newDescriptorService.
@@ -325,44 +348,4 @@ Proof.
   apply sim_iloop_len; [exact progress_content_item|].
   eapply sim_bind; [apply sim_ilength|]. intros n ? <-. cbv beta.
   eapply sim_bind; [apply content_loop_sim|]. cbv beta. intros l d' ->. apply sim_ret. reflexivity.
-Qed.
-
-(* ---------------- pointwise statements ---------------- *)
-
-(* what Props/C14.v quotes *)
-Lemma descriptor_loop_is_source :
-  same_on_bytes parse_descriptors gen_descriptors /\
-  same_on_bytes new_descriptor_avc_video newDescriptorAVCVideo /\
-  same_on_bytes new_descriptor_data_stream_alignment newDescriptorDataStreamAlignment /\
-  same_on_bytes new_descriptor_maximum_bitrate newDescriptorMaximumBitrate /\
-  same_on_bytes new_descriptor_private_data_indicator newDescriptorPrivateDataIndicator /\
-  same_on_bytes new_descriptor_private_data_specifier newDescriptorPrivateDataSpecifier /\
-  same_on_bytes new_descriptor_stream_identifier newDescriptorStreamIdentifier /\
-  (forall t l, same_on_bytes (new_descriptor_unknown t l) (newDescriptorUnknown t l)) /\
-  (forall e, same_on_bytes (new_descriptor_registration e) (newDescriptorRegistration e)) /\
-  (forall e, same_on_bytes (new_descriptor_network_name e) (newDescriptorNetworkName e)) /\
-  (forall e, same_on_bytes (new_descriptor_component e) (newDescriptorComponent e)) /\
-  (forall e, same_on_bytes (new_descriptor_content e) (newDescriptorContent e)) /\
-  same_on_bytes new_descriptor_service newDescriptorService /\
-  same_on_bytes new_descriptor_short_event newDescriptorShortEvent /\
-  same_on_bytes parse_dvb_duration_minutes parseDVBDurationMinutes /\
-  same_on_bytes parse_dvb_duration_seconds parseDVBDurationSeconds.
-Proof.
-  repeat apply conj.
-  - exact parse_descriptors_gen.
-  - exact (sim_eq_point _ _ new_descriptor_avc_video_sim).
-  - exact (sim_eq_point _ _ new_descriptor_data_stream_alignment_sim).
-  - exact (sim_eq_point _ _ new_descriptor_maximum_bitrate_sim).
-  - exact (sim_eq_point _ _ new_descriptor_private_data_indicator_sim).
-  - exact (sim_eq_point _ _ new_descriptor_private_data_specifier_sim).
-  - exact (sim_eq_point _ _ new_descriptor_stream_identifier_sim).
-  - intros t l. exact (sim_eq_point _ _ (new_descriptor_unknown_sim t l)).
-  - intros e. exact (sim_eq_point _ _ (new_descriptor_registration_sim e)).
-  - intros e. exact (sim_eq_point _ _ (new_descriptor_network_name_sim e)).
-  - intros e. exact (sim_eq_point _ _ (new_descriptor_component_sim e)).
-  - intros e. exact (sim_eq_point _ _ (new_descriptor_content_sim e)).
-  - exact (sim_eq_point _ _ new_descriptor_service_sim).
-  - exact (sim_eq_point _ _ new_descriptor_short_event_sim).
-  - exact (sim_eq_point _ _ parse_dvb_duration_minutes_sim).
-  - exact (sim_eq_point _ _ parse_dvb_duration_seconds_sim).
 Qed.
